@@ -26,13 +26,21 @@ ASSUMPTIONS = [
     "values are int tokens, string tokens ('t<n>' and '') for str/Optional[str] keys, List[int] and Dict[str,int]; type conversion is the "
     "identity on them (conversion is C02/C05)",
     "subcommand scenarios (judged case by case, not covered by C04_precedence): parse_args only, the subcommand is named on the command "
-    "line (never by PREFIX_SUBCOMMAND or a `subcommand:` key), no default config files, the environment config and the options before "
-    "the token address the parent's keys, parent-level --cfg sections for the subcommand carry plain assignments only",
+    "line (never by PREFIX_SUBCOMMAND or a `subcommand:` key); default config files and the environment config may carry plain "
+    "assignments in the NAME: section, parent-level --cfg documents also appends; options before the token address the parent's "
+    "keys; a parent key sharing its name with a list key of the subcommand is not str-typed",
     "declared keys are prefix-free (a key is a group or an argument), carry no '+', and each document mentions a key once",
     "PyYAML/json round-trip the generated documents; argparse splits '--opt=value' and '--opt value' alike",
 ]
 EXHAUSTIVE = {"quick": False, "thorough": False}
-FINDING_CLASSES = {1: "envcfg-append-ignores-earlier-list"}
+# Judge for the tree under test: "judge" = unchanged code.  When fixes/C04-default-config-without-subcommand-section-rejected.patch
+# is applied in /repo: JUDGE = "judge_fixed_section" (class 4 then no longer occurs; drop key 4 and flip the open: line).
+# "judge_fixed_append" / "judge_fixed" follow notes/C04-section-append.proposal.patch (a PARTIAL repair: class 5 stays a finding).
+import os as _os
+
+JUDGE = _os.environ.get("VERIF_C04_JUDGE", "judge")
+FINDING_CLASSES = {1: "envcfg-append-ignores-earlier-list", 3: "subcommand-variable-loses-to-earlier-parent-source",
+                   4: "default-config-without-subcommand-section-rejected", 5: "section-append-uses-parent-list"}
 
 LEAVES = ["a", "b", "l", "m", "d", "e", "g.x", "g.l", "g.d", "g.h.y", "g.h.l", "g.h.d", "k.x", "k.l", "k.d"]
 ITEMS = ["p", "q", "r", "s"]
@@ -220,25 +228,46 @@ def gen_sub_case(rng):
     name, other = rng.sample(SUBNAMES, 2)
     sdecls = gen_decls(rng, rng.sample(LEAVES, rng.randint(2, 4)), tok)
     odecls = gen_decls(rng, rng.sample(LEAVES, rng.randint(1, 2)), tok)
+    # a parent key that shares its name with a list key of the subcommand is not str-typed (the model does not tell a
+    # str token from an int token when the code tries it as a List[int] element)
+    sub_lists = {d["key"] for d in sdecls if d["kind"] == "list"}
+    for d in own:
+        if d["key"] in sub_lists and d["kind"] in STR_KINDS:
+            d["kind"] = "scalar"
+            d["default"] = tok()
     prefixed = [dict(d, key=name + "." + d["key"]) for d in sdecls]
     shot = set(rng.sample([d["key"] for d in sdecls], rng.randint(1, 2)))
     hot = {rng.choice(own)["key"]} | {name + "." + k for k in shot}
 
     def parent_doc():
-        # own keys with any operation, the subcommand's keys (NAME.key) with plain assignments
-        doc = gen_doc(rng, own, hot, tok, pmax=0.3) + gen_doc(rng, prefixed, hot, tok, set_only=True, pmax=0.3)
+        # own keys and the subcommand's keys (NAME.key) with any operation
+        doc = gen_doc(rng, own, hot, tok, pmax=0.3) + gen_doc(rng, prefixed, hot, tok, set_only=rng.random() < 0.6, pmax=0.3)
         if not doc:
             d = rng.choice(prefixed)
             doc = [[d["key"], "set", gen_value(rng, d["kind"], tok)]]
         rng.shuffle(doc)
         return doc
 
-    # no default config files here: on the unchanged tree get_defaults of a parser with (required) subcommands rejects a
-    # default config file that names no subcommand ("expected "subcommand" to be one of ..."), see notes/C04.md
+    def early_doc(section):
+        # default config file / environment config: own keys with any operation, plain assignments in the NAME: section
+        doc = gen_doc(rng, own, hot, tok, pmax=0.3)
+        if section:
+            doc += gen_doc(rng, prefixed, hot, tok, set_only=True, nonempty=True, pmax=0.3)
+        if not doc:
+            d = rng.choice(own)
+            doc = [[d["key"], "set", gen_value(rng, d["kind"], tok)]]
+        rng.shuffle(doc)
+        return doc
+
     patterns = []
+    for i in range(rng.choice([0, 0, 0, 1, 1, 2])):
+        nm = "p%d_%s.yaml" % (i, rng.choice(NAMES))
+        # mostly with a section of the chosen subcommand (a first file without one is rejected on the unchanged tree)
+        patterns.append({"pattern": nm, "matches": [{"name": nm, "doc": early_doc(rng.random() < (0.9 if i == 0 else 0.5)),
+                                                      "fmt": rng.choice(FMTS), "blank": ""}]})
     envcfg = None
-    if rng.random() < 0.25:
-        envcfg = {"doc": gen_doc(rng, own, hot, tok, nonempty=True, set_only=True), "as": rng.choice(["file", "string"]), "fmt": rng.choice(FMTS)}
+    if rng.random() < 0.3:
+        envcfg = {"doc": early_doc(rng.random() < 0.6), "as": rng.choice(["file", "string"]), "fmt": rng.choice(FMTS)}
     envvars = [[d["key"], gen_value(rng, d["kind"], tok)] for d in own if rng.random() < 0.4]
     subenv = [[d["key"], gen_value(rng, d["kind"], tok)] for d in sdecls if rng.random() < (0.7 if d["key"] in shot else 0.2)]
     os_default_env = rng.choice([None, None, None, True, False])
@@ -522,7 +551,8 @@ META = {
                   "when the earlier list is non-empty. Calls with a subcommand level (class 2) are modelled (Model/C04Sub.v pipeline_sub, "
                   "composed of the proved pieces) and judged per case against the same documented fold over the keys of both levels "
                   "(Spec flat_call), but the precedence theorem is not yet proved for pipeline_sub: there the guarantee is the "
-                  "correspondence only. Trusted: Coq kernel/VM; model faithfulness outside the sampled scenarios; "
+                  "correspondence only. Three findings of that level have their own classes (3, 4, 5) with _refuted witnesses; a "
+                  "class 3-5 verdict requires that the faithful model reproduces the observation. Trusted: Coq kernel/VM; model faithfulness outside the sampled scenarios; "
                   "harness rendering of documents, options and variable names. No axioms.",
     "technique": "Rocq proof by refinement (nested namespace tree -> flat fold, invariants: unique names, shape) + end-to-end correspondence evaluated in Coq",
 }
